@@ -39,8 +39,37 @@ import (
 // Variance/StdDev only while sum x^2 <= 2^960: beyond that the exact result
 // overflows or nearly overflows float64 (+-Inf is then the correct rounding)
 // or a correct algorithm may overflow in its squares, and nothing is judged.
+//
+// Bottom of the range: data with a non-zero |x| < 1e-280 (down to 5e-324,
+// subnormals, mixed with zeros) gets an absolute floor of 8*nops quanta
+// (quantum = 5e-324) on Sum, Mean and 8 quanta on GeoMean: every operation
+// whose result is subnormal may be off by half a quantum; Variance gets the
+// floor for |x| < 1e-140 already (its products underflow). Where the
+// exact variance is below the smallest normal number StdDev is only required
+// to be a non-negative number (sqrt of a flushed value). GeoMean of data with
+// a subnormal value is likewise only required to be a non-negative number:
+// math.Log of the toolchain (go1.23 amd64) is itself wrong on subnormals.
+//
+// Top of the range: +-MaxFloat64 occurs exactly. With max|x| * max(1, max w)
+// > 1.25e308 Mean is judged only for data of one sign that is unweighted or
+// has weights in {0,1} (w*x or x-m overflows otherwise); +Inf is accepted
+// where the exact value plus the tolerance exceeds MaxFloat64. A GeoMean
+// beyond 1e307 is only required to be a non-negative number (math.Exp of the
+// toolchain overflows early, above 709.4). Bounds and Weight are always
+// judged.
+//
+// Wide weights (largest/smallest non-zero weight > 64): Sum, Weight and
+// Bounds are judged in every order. Mean and GeoMean are judged against the
+// same conditioning-derived tolerance, but only in the orders where an
+// a-priori bound of the incremental recurrence m += (x-m) w/wsum fits into
+// half of it (c09OrderBound): with a light point of large |x| before a much
+// heavier one the recurrence cancels (DESIGN section 6, outside the
+// statement's reach). Heaviest-first orders always qualify.
 
 const c09Eps = 0x1p-52
+
+// c09Quantum is the spacing of the subnormal numbers.
+const c09Quantum = 0x1p-1074
 
 const (
 	c09SumMax = 0x1p1000 // Sum is judged while sum|w x| <= c09SumMax
@@ -227,30 +256,117 @@ func c09AscPerm(xs []float64) []int {
 type c09Tol struct{ sum, weight, mean, vr, sd, geo float64 }
 
 // c09Tolerances derives the tolerances from the reference-side quantities.
-func c09Tolerances(d *ref.Desc, nops int) c09Tol {
+//
+// q is 0, or c09Quantum for data holding a non-zero |x| < 1e-280 (c09Inspect):
+// then every tolerance gets an absolute floor of a few quanta per operand.
+// qv is the same for the variance, whose products underflow already for
+// |x| < 1e-140.
+func c09Tolerances(d *ref.Desc, nops int, q, qv float64) c09Tol {
 	if nops < 1 {
 		nops = 1
 	}
 	k := 16 * float64(nops) * c09Eps
-	t := c09Tol{sum: k * d.SumAbs, weight: k * d.W, mean: k * d.MeanAbs}
+	fl := 8 * float64(nops) * q
+	t := c09Tol{sum: k*d.SumAbs + fl, weight: k * d.W, mean: k * d.MeanAbs}
+	if q > 0 && d.W > 0 {
+		// the half quantum lost in a product w*x is divided by the total weight
+		t.mean += fl * math.Max(1, 1/d.W)
+	}
 	if !d.Weighted && d.N >= 2 {
 		n1 := float64(d.N - 1)
-		t.vr = k*math.Sqrt(d.SumSq)*math.Sqrt(d.SS)/n1 + k*k*d.SumSq/n1
+		t.vr = k*math.Sqrt(d.SumSq)*math.Sqrt(d.SS)/n1 + k*k*d.SumSq/n1 + 8*float64(nops)*qv
 		lo := math.Sqrt(math.Max(0, d.Var-t.vr))
 		hi := math.Sqrt(d.Var + t.vr)
 		t.sd = math.Max(d.SD-lo, hi-d.SD) + 4*c09Eps*d.SD
 	}
 	if !d.NonPos && d.W > 0 {
-		t.geo = k * (1 + d.MeanAbsLog) * d.Geo
+		t.geo = k*(1+d.MeanAbsLog)*d.Geo + 8*q
 	}
 	return t
 }
+
+// c09In: facts about the inputs of one query (inputs only).
+type c09In struct {
+	amax, amin  float64 // largest and smallest non-zero |x| (0 and +Inf if there is none)
+	oneSign     bool    // no two non-zero values of opposite sign
+	unit        bool    // unweighted, or every weight is 0 or 1
+	wmin, wmax  float64 // smallest and largest non-zero weight (+Inf and 0 if there is none)
+	subnormal   bool    // some non-zero |x| is below the smallest normal number
+	q           float64 // c09Quantum if some non-zero |x| < 1e-280, else 0
+	qv          float64 // c09Quantum if some non-zero |x| < 1e-140, else 0
+	wide        bool    // weighted and wmax > 64*wmin
+	lightBehind bool    // some non-zero weight is at most 2^-53 of the weight before it in slice order
+}
+
+func c09Inspect(xs, ws []float64) c09In {
+	in := c09In{amin: math.Inf(1), wmin: math.Inf(1), oneSign: true, unit: true}
+	pos, neg := false, false
+	for _, x := range xs {
+		if a := math.Abs(x); a > 0 {
+			in.amax, in.amin = math.Max(in.amax, a), math.Min(in.amin, a)
+			pos, neg = pos || x > 0, neg || x < 0
+		}
+	}
+	in.oneSign = !(pos && neg)
+	in.subnormal = in.amin < 0x1p-1022
+	if in.amin < 1e-280 {
+		in.q = c09Quantum
+	}
+	if in.amin < 1e-140 {
+		in.qv = c09Quantum
+	}
+	before := 0.0
+	for _, w := range ws {
+		if w != 0 {
+			in.wmax, in.wmin = math.Max(in.wmax, w), math.Min(in.wmin, w)
+			if w != 1 {
+				in.unit = false
+			}
+			if before >= w*0x1p53 {
+				in.lightBehind = true
+			}
+			before += w
+		}
+	}
+	in.wide = ws != nil && in.wmax > 64*in.wmin
+	return in
+}
+
+// c09OrderBound is an a-priori bound, in units of eps, of the rounding error
+// of the incremental weighted mean m += (a_i - m) w_i/wsum_i taken over the
+// data in slice order, a_i = f(x_i): step i commits at most
+// eps (|m_i| + (c+2) |delta_i|) (c-1 roundings sit in wsum_i, three in
+// delta_i, one in the addition), and later steps only shrink it (the factor
+// 1 - w/wsum lies in [0,1]). |m_i| <= A_i/wsum_i with A_i = sum w|a| and
+// |delta_i| <= (|a_i| + |m_(i-1)|) w_i/wsum_i. Inputs only; all terms are
+// positive, so float64 evaluates it to a few ulps.
+func c09OrderBound(xs, ws []float64, f func(float64) float64) float64 {
+	A, S, B, prev := 0.0, 0.0, 0.0, 0.0
+	c := 0
+	for i, x := range xs {
+		w := ws[i]
+		if w == 0 {
+			continue
+		}
+		c++
+		a := f(x)
+		S += w
+		A += w * a
+		cur := A / S
+		B += cur + float64(c+3)*(a+prev)*(w/S)
+		prev = cur
+	}
+	return B
+}
+
+func c09AbsLog(x float64) float64 { return math.Abs(math.Log(x)) }
 
 // c09Res is what one round of queries returned.
 type c09Res struct {
 	ok                                       bool
 	mean, geo, sum, weight, min, max, vr, sd float64
 	hasGeo, hasVar                           bool
+	meanOK, geoOK                            bool // Mean / GeoMean were judged by value
 }
 
 type c09Ctx struct {
@@ -272,8 +388,23 @@ func (j *c09Ctx) value(op, label string, got, want, tol float64) {
 		}
 		return
 	}
+	if math.IsInf(got, 0) && (got > 0) == (want > 0) && math.Abs(want)/2+tol/2 >= math.MaxFloat64/2 {
+		// the exact value plus the tolerance lies beyond the largest finite
+		// number: the infinity is its correct rounding
+		j.w.Note("overflow-accepted:exact-value-plus-tolerance-exceeds-MaxFloat64")
+		return
+	}
 	if !j.w.Err(op, math.Abs(got-want), tol) {
 		j.bad(op, fmt.Sprintf("%s [%s] = %.17g, exact value %.17g, |err| %.3g > tol %.3g", op, label, got, want, math.Abs(got-want), tol))
+	}
+}
+
+// sane judges a result whose value is not judged (see the head of the file):
+// it must still be a non-negative number.
+func (j *c09Ctx) sane(op, label string, got float64) {
+	j.w.Eval(op + ":sane")
+	if math.IsNaN(got) || got < 0 {
+		j.bad(op, fmt.Sprintf("%s [%s] = %v where the exact value is a finite non-negative number", op, label, got))
 	}
 }
 
@@ -305,7 +436,35 @@ func (j *c09Ctx) query(s stats.Sample, d *ref.Desc, label string) (r c09Res) {
 	if weighted {
 		nops = 2 * d.N
 	}
-	t := c09Tolerances(d, nops)
+	in := c09Inspect(s.Xs, s.Weights)
+	t := c09Tolerances(d, nops, in.q, in.qv)
+
+	// which of Mean / GeoMean are judged by value (inputs and reference only)
+	// (math.Exp of the toolchain returns +Inf above 709.4: a geometric mean
+	// beyond 1e307 is not judged by value either)
+	meanOK, geoOK := true, !in.subnormal && !(d.Geo > 1e307)
+	if in.amax*math.Max(1, in.wmax) > 1.25e308 && !(in.oneSign && in.unit) {
+		meanOK = false // x-m or w*x can overflow
+	}
+	if in.wide && d.W > 0 {
+		if meanOK {
+			meanOK = c09Eps*c09OrderBound(s.Xs, s.Weights, math.Abs) <= t.mean/2
+		}
+		if geoOK && !d.NonPos {
+			k := 16 * float64(nops) * c09Eps
+			geoOK = c09Eps*c09OrderBound(s.Xs, s.Weights, c09AbsLog) <= k*(1+d.MeanAbsLog)/2
+		}
+		if meanOK {
+			j.w.Hit("wide-weights-mean-judged")
+			j.w.HitIf(in.lightBehind, "wide-weights-mean-judged:a-weight-below-half-ulp-of-the-weight-before-it")
+		} else {
+			j.w.Note("wide-weights-mean-not-judged-in-this-order")
+		}
+	}
+	if !meanOK && !in.wide {
+		j.w.Note("mean-not-judged:|x|>1e307-mixed-signs-or-weights")
+	}
+	r.meanOK, r.geoOK = meanOK, geoOK
 
 	if !j.call("Sample.Sum", label, func() { r.sum = s.Sum() }) {
 		return
@@ -323,7 +482,9 @@ func (j *c09Ctx) query(s stats.Sample, d *ref.Desc, label string) (r c09Res) {
 	if !j.call("Sample.Mean", label, func() { r.mean = s.Mean() }) {
 		return
 	}
-	j.value("Sample.Mean", label, r.mean, d.Mean, t.mean)
+	if meanOK {
+		j.value("Sample.Mean", label, r.mean, d.Mean, t.mean)
+	}
 	if !j.call("Sample.Bounds", label, func() { r.min, r.max = s.Bounds() }) {
 		return
 	}
@@ -335,10 +496,18 @@ func (j *c09Ctx) query(s stats.Sample, d *ref.Desc, label string) (r c09Res) {
 		if !j.call("Sample.GeoMean", label, func() { r.geo = s.GeoMean() }) {
 			return
 		}
-		j.value("Sample.GeoMean", label, r.geo, d.Geo, t.geo)
+		if geoOK || math.IsNaN(d.Geo) {
+			j.value("Sample.GeoMean", label, r.geo, d.Geo, t.geo)
+		} else {
+			j.sane("Sample.GeoMean", label, r.geo)
+		}
 	}
+	// tiny data whose exact variance is below the smallest normal number:
+	// StdDev is the square root of a flushed value
+	sdOK := !(in.qv > 0 && d.Var < 0x1p-1022)
 	if !weighted {
 		r.hasVar = true
+		j.w.HitIf(!sdOK && d.N >= 2 && d.Max > d.Min, "tiny-variance-underflows")
 		if !j.call("Sample.Variance", label, func() { r.vr = s.Variance() }) {
 			return
 		}
@@ -350,7 +519,11 @@ func (j *c09Ctx) query(s stats.Sample, d *ref.Desc, label string) (r c09Res) {
 			j.small("Sample.StdDev", label, r.sd)
 		} else if varOK {
 			j.value("Sample.Variance", label, r.vr, d.Var, t.vr)
-			j.value("Sample.StdDev", label, r.sd, d.SD, t.sd)
+			if sdOK {
+				j.value("Sample.StdDev", label, r.sd, d.SD, t.sd)
+			} else {
+				j.sane("Sample.StdDev", label, r.sd)
+			}
 		} else {
 			j.w.Note("variance-not-judged:squares-overflow-or-nearly")
 		}
@@ -361,11 +534,17 @@ func (j *c09Ctx) query(s stats.Sample, d *ref.Desc, label string) (r c09Res) {
 		if !j.call("stats.Mean", label, func() { g = stats.Mean(xs) }) {
 			return
 		}
-		j.value("stats.Mean", label, g, d.Mean, t.mean)
+		if meanOK {
+			j.value("stats.Mean", label, g, d.Mean, t.mean)
+		}
 		if !j.call("stats.GeoMean", label, func() { g = stats.GeoMean(xs) }) {
 			return
 		}
-		j.value("stats.GeoMean", label, g, d.Geo, t.geo)
+		if geoOK || math.IsNaN(d.Geo) {
+			j.value("stats.GeoMean", label, g, d.Geo, t.geo)
+		} else {
+			j.sane("stats.GeoMean", label, g)
+		}
 		var v, sd float64
 		if !j.call("stats.Variance", label, func() { v = stats.Variance(xs) }) {
 			return
@@ -378,7 +557,11 @@ func (j *c09Ctx) query(s stats.Sample, d *ref.Desc, label string) (r c09Res) {
 			j.small("stats.StdDev", label, sd)
 		} else if varOK {
 			j.value("stats.Variance", label, v, d.Var, t.vr)
-			j.value("stats.StdDev", label, sd, d.SD, t.sd)
+			if sdOK {
+				j.value("stats.StdDev", label, sd, d.SD, t.sd)
+			} else {
+				j.sane("stats.StdDev", label, sd)
+			}
 		}
 		var lo, hi float64
 		if !j.call("stats.Bounds", label, func() { lo, hi = stats.Bounds(xs) }) {
@@ -475,6 +658,8 @@ func c09JudgeSample(w *mon.W, c c09Case) {
 	if c.HasW {
 		if d.IntW {
 			w.Hit("int-weights")
+		} else if d.IntWhole {
+			w.Hit("int-weights>64")
 		} else {
 			w.Hit("real-weights")
 		}
@@ -487,12 +672,64 @@ func c09JudgeSample(w *mon.W, c c09Case) {
 	} else {
 		w.Note("unweighted")
 	}
+	// bottom and top of the float64 range, wide weights (inputs only)
+	in := c09Inspect(xs, ws)
+	hasMax, hasQ := false, false
+	for _, x := range xs {
+		hasMax = hasMax || math.Abs(x) == math.MaxFloat64
+		hasQ = hasQ || math.Abs(x) == c09Quantum
+	}
+	w.HitIf(in.amax > 0 && in.amax <= 1e-250, "tiny-values")
+	w.HitIf(in.amax > 0 && in.amax < 0x1p-1022, "tiny-all-subnormal")
+	w.HitIf(in.amax > 0 && in.amax < 5e-309, "tiny-1/max|x|-overflows")
+	w.HitIf(in.amax > 0 && in.amax <= 1e-250 && in.amin >= 0x1p-1022 && n >= 1 && !d.NonPos, "tiny-normal-geomean-judged")
+	w.HitIf(in.q > 0 && in.amax >= 1e-30, "tiny-and-ordinary-mixed")
+	zeros := false
+	for _, x := range xs {
+		zeros = zeros || x == 0
+	}
+	w.HitIf(in.amax > 0 && in.amax <= 1e-250 && zeros, "tiny-with-zeros")
+	w.HitIf(hasQ, "smallest-nonzero-present")
+	w.HitIf(hasMax, "maxfloat-present")
+	w.HitIf(hasMax && in.oneSign && in.unit, "maxfloat-mean-judged")
+	w.HitIf(c.HasW && d.NPos > 0 && d.Min == d.Max && math.Abs(d.Max) == math.MaxFloat64 && n > d.NPos, "all-weighted-values-are-maxfloat")
+	w.HitIf(c.HasW && d.NPos > 0 && d.Min == d.Max && math.Abs(d.Max) == c09Quantum && n > d.NPos, "all-weighted-values-are-smallest-nonzero")
+	if c.HasW && d.NPos > 0 {
+		w.HitIf(in.wide, "wide-weights")
+		w.HitIf(in.wmax >= 0x1p53*in.wmin, "weight-ratio>=2^53")
+		w.HitIf(in.wide && in.wmax <= 1e6*in.wmin && d.IntWhole, "wide-integer-weights<=1e6")
+		w.HitIf(!in.wide && (in.wmax >= 0x1p35 || in.wmax <= 0x1p-35), "weights-scaled-by-2^+-40")
+		w.HitIf(in.lightBehind, "a-weight-below-half-ulp-of-the-weight-before-it")
+		// the smallest or the largest value is carried only by weights at
+		// most 1e-12 of the largest weight
+		minHeavy, maxHeavy := false, false
+		for k, x := range xs {
+			if ws[k] > 1e-12*in.wmax {
+				minHeavy = minHeavy || x == d.Min
+				maxHeavy = maxHeavy || x == d.Max
+			}
+		}
+		w.HitIf(!minHeavy || !maxHeavy, "extreme-value-only-at-weights<=1e-12*max")
+	}
 	w.Distinct(mon.NewHasher().Fs(xs).Fs(ws).I(c.NPerm).U(c.Seed).Sum())
 
 	// orders
 	r0 := j.fresh(xs, ws, false, d, "as given")
 	if j.stop {
 		return
+	}
+	if in.wide {
+		// heaviest first: the order in which the incremental mean is at its best
+		hv := make([]int, n)
+		for i := range hv {
+			hv[i] = i
+		}
+		sort.SliceStable(hv, func(a, b int) bool { return ws[hv[a]] > ws[hv[b]] })
+		hxs, hws := c09Order(xs, ws, hv)
+		j.fresh(hxs, hws, false, d, "heaviest first")
+		if j.stop {
+			return
+		}
 	}
 	ra := j.fresh(axs, aws, false, d, "ascending")
 	if j.stop {
@@ -542,7 +779,7 @@ func c09JudgeSample(w *mon.W, c c09Case) {
 			return
 		}
 		w.Eval("law:weighted=repeated")
-		tw, te := c09Tolerances(d, 2*n), c09Tolerances(de, len(ex))
+		tw, te := c09Tolerances(d, 2*n, in.q, in.qv), c09Tolerances(de, len(ex), in.q, in.qv)
 		law := func(name string, a, b, tol float64) {
 			if math.IsNaN(a) || math.IsNaN(b) {
 				if !(math.IsNaN(a) && math.IsNaN(b)) {
@@ -550,16 +787,22 @@ func c09JudgeSample(w *mon.W, c c09Case) {
 				}
 				return
 			}
+			if a == b { // also equal infinities
+				w.Err("law:weighted=repeated:"+name, 0, tol)
+				return
+			}
 			if !w.Err("law:weighted=repeated:"+name, math.Abs(a-b), tol) {
 				j.bad("weighted-vs-repeated", fmt.Sprintf("%s: weighted sample gives %.17g, repeated sample %.17g, tol %.3g", name, a, b, tol))
 			}
 		}
-		law("Mean", rw.mean, re.mean, tw.mean+te.mean)
+		if rw.meanOK && re.meanOK {
+			law("Mean", rw.mean, re.mean, tw.mean+te.mean)
+		}
 		if c09SumJudged(d) && c09SumJudged(de) {
 			law("Sum", rw.sum, re.sum, tw.sum+te.sum)
 		}
 		law("Weight", rw.weight, re.weight, tw.weight+te.weight)
-		if rw.hasGeo && re.hasGeo {
+		if rw.hasGeo && re.hasGeo && ((rw.geoOK && re.geoOK) || math.IsNaN(d.Geo)) {
 			law("GeoMean", rw.geo, re.geo, tw.geo+te.geo)
 		}
 		if !c09Same(rw.min, re.min) || !c09Same(rw.max, re.max) {
@@ -737,6 +980,12 @@ func c09JudgeHistory(w *mon.W, c c09Case) {
 			}
 			o.d = nil
 			w.HitIf(copied, "hist-mutate-after-copy")
+			if v := math.Abs(float64(op.V)); op.Op == "mutx" {
+				w.HitIf(v == math.MaxFloat64, "hist-write-maxfloat")
+				w.HitIf(v == c09Quantum, "hist-write-smallest-nonzero")
+			} else {
+				w.HitIf(v >= 1e13, "hist-write-weight>=1e13")
+			}
 			j.verifyAll(objs, label)
 		case "flag":
 			if c09Ascending(o.xs) {
@@ -1416,6 +1665,333 @@ func c09Weights(rng *mon.Rand, mode int, xs []float64) []float64 {
 	return ws
 }
 
+// c09WideWeights draws a weight vector with a wide dynamic range, or an
+// ordinary one scaled as a whole.
+//
+//	0  a mix of 1 and 10^k, k = 1..17
+//	1  whole numbers, log-uniform over 1..2^53, a few zeros
+//	2  an ordinary vector (c09Weights) times 2^+-40 or 2^+-20 (exact scaling)
+//	3  10^k (k = 13..17) or 2^53 everywhere except on the smallest and the
+//	   largest value, which weigh 1..3
+//	4  whole numbers, log-uniform over 1..1e6
+//	5  reals, log-uniform over 1e-8..1e8
+func c09WideWeights(rng *mon.Rand, mode int, xs []float64) []float64 {
+	n := len(xs)
+	ws := make([]float64, n)
+	switch mode {
+	case 0:
+		heavy := math.Pow(10, float64(rng.Range(1, 17)))
+		for i := range ws {
+			ws[i] = rng.Pick(1, heavy)
+		}
+		if n >= 2 {
+			a := rng.Intn(n)
+			ws[a], ws[(a+1+rng.Intn(n-1))%n] = 1, heavy
+		}
+	case 1:
+		for i := range ws {
+			ws[i] = math.Floor(rng.LogUniform(1, 0x1p53))
+			if rng.Intn(8) == 0 {
+				ws[i] = 0
+			}
+		}
+		if n > 0 && rng.Bool() {
+			ws[rng.Intn(n)] = rng.Pick(0x1p53, 0x1p53-1)
+		}
+	case 2:
+		ws = c09Weights(rng, rng.Intn(4), xs)
+		sc := rng.Pick(0x1p40, 0x1p-40, 0x1p20, 0x1p-20)
+		for i := range ws {
+			ws[i] *= sc
+		}
+	case 3:
+		heavy := rng.Pick(1e13, 1e14, 1e15, 1e16, 1e17, 0x1p53)
+		asc := c09AscPerm(xs)
+		for i := range ws {
+			ws[i] = heavy
+			if rng.Intn(6) == 0 {
+				ws[i] = 0
+			}
+		}
+		if n >= 3 {
+			ws[asc[n/2]] = heavy
+		}
+		for i, x := range xs {
+			if n > 0 && (x == xs[asc[0]] || x == xs[asc[n-1]]) {
+				ws[i] = float64(rng.Range(1, 3))
+			}
+		}
+	case 4:
+		for i := range ws {
+			ws[i] = math.Floor(rng.LogUniform(1, 1e6))
+		}
+	default:
+		for i := range ws {
+			ws[i] = rng.LogUniform(1e-8, 1e8)
+		}
+	}
+	return ws
+}
+
+// c09GenWide: samples with wide-range or scaled weight vectors. Every sixth
+// case is built heaviest first with light points of much larger magnitude:
+// the shape in which dropping the light points is visible in the Mean.
+func c09GenWide(rng *mon.Rand, i int) c09Case {
+	n := c09N(rng)
+	if i%25 == 3 {
+		n = rng.Range(1, 3)
+	}
+	c := c09Case{Kind: "sample", HasW: true, Seed: rng.Uint64(), NPerm: 4}
+	if i%6 == 5 {
+		if n > 60 {
+			n = rng.Range(2, 60)
+		}
+		nh := 1
+		if n >= 4 && rng.Intn(3) == 0 {
+			nh = rng.Range(2, 3)
+		}
+		heavy := rng.Pick(1e16, 1e17, 0x1p53, 0x1p54, 0x1p60)
+		s := math.Pow(10, rng.Uniform(-20, 20))
+		xs, ws := make([]float64, n), make([]float64, n)
+		for k := range xs {
+			if k < nh {
+				xs[k], ws[k] = rng.Sign()*s*rng.Uniform(0.5, 2), heavy
+				if rng.Intn(4) == 0 {
+					xs[k] = 0
+				}
+			} else {
+				xs[k], ws[k] = rng.Sign()*s*math.Pow(10, rng.Uniform(6, 30)), float64(rng.Range(1, 3))
+			}
+		}
+		if rng.Intn(3) == 0 { // all positive: GeoMean is defined
+			for k := range xs {
+				xs[k] = math.Abs(xs[k])
+				if xs[k] == 0 {
+					xs[k] = s
+				}
+			}
+		}
+		c.Xs, c.Ws = mon.Fs(xs), mon.Fs(ws)
+		return c
+	}
+	xs := c09Values(rng, (i/6)%12, n)
+	c.Xs, c.Ws = mon.Fs(xs), mon.Fs(c09WideWeights(rng, i%6, xs))
+	return c
+}
+
+// c09TinyValues draws values at the bottom of the float64 range.
+//
+//	0  subnormals: whole multiples of 5e-324 up to 2^-1022
+//	1  positive, 1e-307..1e-250 (normal numbers: GeoMean is judged)
+//	2  zeros and a few values of one to four quanta
+//	3  a narrow cluster at 1e-323..1e-308
+//	4  any sign, 1e-170..1e-150: the squares sit at the underflow threshold
+//	5  tiny values next to ordinary ones
+//	6  positive, 1e-320..1e-250
+func c09TinyValues(rng *mon.Rand, variant, n int) []float64 {
+	xs := make([]float64, n)
+	sg := 1.0
+	if rng.Intn(3) == 0 {
+		sg = -1
+	}
+	switch variant {
+	case 0:
+		for i := range xs {
+			xs[i] = sg * math.Floor(rng.LogUniform(1, 0x1p52)) * c09Quantum
+		}
+	case 1:
+		for i := range xs {
+			xs[i] = math.Pow(10, rng.Uniform(-307, -250))
+		}
+	case 2:
+		for i := range xs {
+			if rng.Intn(3) == 0 {
+				xs[i] = sg * float64(rng.Range(1, 4)) * c09Quantum
+			} else if rng.Bool() {
+				xs[i] = math.Copysign(0, -1)
+			}
+		}
+		if n > 0 {
+			xs[rng.Intn(n)] = sg * c09Quantum
+		}
+	case 3:
+		s := math.Pow(10, rng.Uniform(-323, -308))
+		for i := range xs {
+			xs[i] = sg * s * rng.Uniform(1, 3)
+		}
+	case 4:
+		for i := range xs {
+			xs[i] = rng.Sign() * math.Pow(10, rng.Uniform(-170, -150))
+		}
+	case 5:
+		for i := range xs {
+			if rng.Bool() {
+				xs[i] = rng.Sign() * math.Pow(10, rng.Uniform(-323, -290))
+			} else {
+				xs[i] = rng.Sign() * math.Pow(10, rng.Uniform(-5, 5))
+			}
+		}
+		if n > 0 {
+			xs[rng.Intn(n)] = math.Pow(10, rng.Uniform(-323, -290))
+		}
+		if n > 1 {
+			xs[rng.Intn(n)] = math.Pow(10, rng.Uniform(-5, 5))
+		}
+	default:
+		for i := range xs {
+			xs[i] = math.Pow(10, rng.Uniform(-320, -250))
+		}
+	}
+	if n > 0 && variant != 1 && rng.Intn(3) == 0 {
+		xs[rng.Intn(n)] = math.Copysign(c09Quantum, xs[0])
+	}
+	if variant != 2 && variant != 1 && n > 2 && rng.Intn(4) == 0 { // mixed with zeros
+		for k := rng.Range(1, 3); k > 0; k-- {
+			xs[rng.Intn(n)] = 0
+		}
+	}
+	switch rng.Intn(6) {
+	case 0:
+		sort.Float64s(xs)
+	case 1:
+		sort.Sort(sort.Reverse(sort.Float64Slice(xs)))
+	}
+	return xs
+}
+
+// c09GenTiny: samples of c09TinyValues, unweighted or with the ordinary
+// weight vectors (non-zero weights >= 0.25: the half quantum lost in a
+// product w*x is not magnified).
+func c09GenTiny(rng *mon.Rand, i int) c09Case {
+	variant := i % 7
+	wmode := (i / 7) % 6 // 0..2 unweighted, 3..5 weight modes 0..2
+	n := c09N(rng)
+	if i%20 == 9 {
+		n = rng.Range(1, 4)
+	}
+	xs := c09TinyValues(rng, variant, n)
+	c := c09Case{Kind: "sample", Xs: mon.Fs(xs), Seed: rng.Uint64(), NPerm: 4}
+	if wmode >= 3 {
+		c.HasW = true
+		c.Ws = mon.Fs(c09Weights(rng, wmode-3, xs))
+	}
+	return c
+}
+
+// c09GenExtreme: the two ends of the type. All non-zero values of a sample
+// have one sign and the weights are 0 or 1 (nothing overflows in x-m or w*x).
+//
+//	0  "saturated": every value of non-zero weight is exactly +-MaxFloat64,
+//	   the other values (weight 0) are smaller
+//	1  huge values, some of them exactly +-MaxFloat64
+//	2  every value of non-zero weight is exactly +-5e-324, the other values
+//	   (weight 0) are larger
+//	3  +-MaxFloat64, +-5e-324 and zeros together
+func c09GenExtreme(rng *mon.Rand, i int) c09Case {
+	variant := i % 4
+	n := rng.Range(1, 12)
+	if i%10 == 7 {
+		n = c09N(rng)
+	}
+	sg := rng.Sign()
+	xs, ws := make([]float64, n), make([]float64, n)
+	weighted := (i/4)%4 != 0
+	switch variant {
+	case 0, 2:
+		lim := sg * math.MaxFloat64
+		if variant == 2 {
+			lim = sg * c09Quantum
+		}
+		for k := range xs {
+			if rng.Intn(3) == 0 {
+				xs[k], ws[k] = lim, 1
+			} else if variant == 0 {
+				xs[k] = sg * rng.Pick(1, 0, 1e307, math.Pow(10, rng.Uniform(-300, 308.2)), math.Nextafter(math.MaxFloat64, 0))
+			} else {
+				xs[k] = sg * rng.Pick(1, 2*c09Quantum, 0x1p-1022, math.Pow(10, rng.Uniform(-323, 300)))
+			}
+		}
+		k := rng.Intn(n)
+		xs[k], ws[k] = lim, 1
+		if !weighted { // unweighted: every value counts
+			for k := range ws {
+				ws[k] = 1
+			}
+		}
+	case 1:
+		copy(xs, c09HugeValues(rng, rng.Intn(4), n))
+		sg = 1
+		for _, x := range xs {
+			if x < 0 {
+				sg = -1
+			}
+		}
+		for k := range xs {
+			if rng.Intn(4) == 0 {
+				xs[k] = sg * math.MaxFloat64
+			}
+			ws[k] = float64(rng.Intn(2))
+		}
+		xs[rng.Intn(n)] = sg * math.MaxFloat64
+	default:
+		for k := range xs {
+			xs[k] = sg * rng.Pick(math.MaxFloat64, c09Quantum, 0, 1, 0x1p-1022)
+			ws[k] = float64(rng.Intn(2))
+		}
+	}
+	c := c09Case{Kind: "sample", Xs: mon.Fs(xs), Seed: rng.Uint64(), NPerm: 3}
+	if weighted {
+		c.HasW = true
+		c.Ws = mon.Fs(ws)
+	}
+	return c
+}
+
+// c09GenHistoryExtreme: a history of c09GenHistory in which the caller's
+// writes store +-MaxFloat64, +-5e-324, subnormals and zeros into Xs and
+// whole-number weights up to 2^53 into Weights (extra writes are inserted).
+func c09GenHistoryExtreme(rng *mon.Rand, i int) c09Case {
+	c := c09GenHistory(rng, i)
+	n := len(c.Xs)
+	xv := func() mon.F {
+		return mon.F(rng.Pick(math.MaxFloat64, -math.MaxFloat64, c09Quantum, -c09Quantum, 0, 0x1p-1022, 1e-310, 1e307, math.MaxFloat64, c09Quantum))
+	}
+	wv := func() mon.F { return mon.F(rng.Pick(0, 1, 3e12, 1e13, 1e15, 1e17, 0x1p53, 0x1p53-1)) }
+	nobj := 1
+	var ops []c09Op
+	for _, op := range c.Ops {
+		switch op.Op {
+		case "mutx":
+			if rng.Intn(3) > 0 {
+				op.V = xv()
+			}
+		case "mutw":
+			if rng.Intn(3) > 0 {
+				op.V = wv()
+			}
+		}
+		ops = append(ops, op)
+		if op.Op == "copy" {
+			nobj++
+		}
+		if rng.Intn(3) == 0 {
+			e := c09Op{Op: "mutx", Obj: rng.Intn(nobj), J: rng.Intn(imax(n, 1)), V: xv()}
+			if c.HasW && rng.Bool() {
+				e.Op, e.V = "mutw", wv()
+			}
+			ops = append(ops, e)
+			if rng.Bool() {
+				ops = append(ops, c09Op{Op: []string{"query", "sort", "copy"}[rng.Intn(3)], Obj: e.Obj})
+				if ops[len(ops)-1].Op == "copy" {
+					nobj++
+				}
+			}
+		}
+	}
+	c.Ops = ops
+	return c
+}
+
 func imin(a, b int) int {
 	if a < b {
 		return a
@@ -1585,12 +2161,15 @@ func c09SelfTest() error {
 }
 
 func c09Run(r *mon.Run) {
-	r.Rule("samples: n=0..200 values of 12 shapes (offset/spread up to 1e9, ties, constant, outlier, cancelling pairs, 120 decades of magnitude, integers with signed zeros) and of 5 huge shapes (one sign, |x| up to 1e307: sums that overflow, huge mixed with small, huge offset with tiny spread; |x| 1e290..1e298; any sign 1e60..1e140), unweighted / integer weights 0..5 (also 0..12, all-zero, all-one, single) / real weights in [0.25,8]; every sample is queried (Sum, Weight, Mean, Bounds, GeoMean, Variance, StdDev on the Sample; Mean, GeoMean, Variance, StdDev, Bounds, vec.Sum on the slice) in 8 orders: as given, ascending, ascending with Sorted=true, descending, 4 random permutations; integer-weighted samples also as the sample with each value repeated weight times. histories: up to 12 operations of {Sort, Copy, query, write x, write w, set Sorted on ascending data} over the objects created so far, against the pair-multiset model. vec: Sum, Linspace (num 0..1000, offsets, descending), Logspace (num 0..24 and 200, 257, 1000; every element against base**(exact Linspace) with one relative tolerance for the whole vector), Map/Vectorize (8 functions; 0..200 values and 1000..4099; Map and each Vectorize closure applied 1-3 times to inputs of equal and unequal length, then every result re-checked bit for bit and all results and inputs checked for shared storage; f must have been called with every element), Concat (nil, empty, aliased arguments, canaries in spare capacity). A case is non-trivial if it hits any class; distinct by hash of the whole case.")
+	r.Rule("samples: n=0..200 values of 12 shapes (offset/spread up to 1e9, ties, constant, outlier, cancelling pairs, 120 decades of magnitude, integers with signed zeros) and of 5 huge shapes (one sign, |x| up to 1e307: sums that overflow, huge mixed with small, huge offset with tiny spread; |x| 1e290..1e298; any sign 1e60..1e140), unweighted / integer weights 0..5 (also 0..12, all-zero, all-one, single) / real weights in [0.25,8]; every sample is queried (Sum, Weight, Mean, Bounds, GeoMean, Variance, StdDev on the Sample; Mean, GeoMean, Variance, StdDev, Bounds, vec.Sum on the slice) in 8 orders: as given, ascending, ascending with Sorted=true, descending, 4 random permutations; integer-weighted samples also as the sample with each value repeated weight times. histories: up to 12 operations of {Sort, Copy, query, write x, write w, set Sorted on ascending data} over the objects created so far, against the pair-multiset model. vec: Sum, Linspace (num 0..1000, offsets, descending), Logspace (num 0..24 and 200, 257, 1000; every element against base**(exact Linspace) with one relative tolerance for the whole vector), Map/Vectorize (8 functions; 0..200 values and 1000..4099; Map and each Vectorize closure applied 1-3 times to inputs of equal and unequal length, then every result re-checked bit for bit and all results and inputs checked for shared storage; f must have been called with every element), Concat (nil, empty, aliased arguments, canaries in spare capacity). wide weights: mixes of 1 and 10^k (k=1..17), whole-number weights up to 2^53 and up to 1e6, reals over 1e-8..1e8, ordinary vectors scaled as a whole by 2^+-20 / 2^+-40, extreme values at weights <= 1e-12 of the largest, heavy points (1e16..2^60) first with light points of 1e6..1e30 times their magnitude; these samples are also queried heaviest first. tiny: subnormals, 5e-324, 1e-320..1e-250, zeros mixed in, 1e-170..1e-150 (squares at the underflow threshold), tiny next to ordinary values; unweighted and with the ordinary weights. extreme: +-MaxFloat64 and +-5e-324 exactly, also as the only values of non-zero weight (weights 0/1, one sign). histories-extreme: the caller's writes store +-MaxFloat64, +-5e-324, subnormals, zeros and weights 3e12..2^53. A case is non-trivial if it hits any class; distinct by hash of the whole case.")
 	r.Assume("reference: 384-bit big.Float arithmetic on the exact binary values, cross-checked at start-up against big.Rat, text-book values and gonum/stat",
 		"tolerances: 16*nops*eps*kappa*scale from the conditioning of the problem (see the head of props/c09.go); Bounds, Sort, Copy, Map, Concat exact",
 		"weighted Variance/StdDev (documented as unimplemented) and weighted GeoMean of samples with a non-positive value of non-zero weight are not called; zero-weight values are not part of the sample (the statement's repeated-sample law), whatever their sign",
 		"n<2: Variance/StdDev may be 0 or NaN; empty or zero-total-weight data: Mean, GeoMean and Bounds are NaN, Sum and Weight are 0",
-		"weights are integers 0..12 or reals in {0} u [0.25,8]; |x| within 1e-60..1e60 (any sign), up to 1e140 (any sign, huge class) and up to 1e307 (one sign per sample, huge class; 1e-200 for the small values mixed in); offset/spread <= 1e9",
+		"ordinary classes: weights are integers 0..12 or reals in {0} u [0.25,8]; |x| within 1e-60..1e60 (any sign), up to 1e140 (any sign, huge class) and up to 1e307 (one sign per sample, huge class; 1e-200 for the small values mixed in); offset/spread <= 1e9",
+		"wide weights (largest/smallest non-zero weight > 64, up to 2^60): Sum, Weight, Bounds are judged in every order; Mean and GeoMean are judged with the same conditioning-derived tolerance only in the orders in which an a-priori rounding bound of the incremental recurrence (c09OrderBound, inputs only) is within half the tolerance - heaviest-first orders always are; in the other orders (a light point of large magnitude before a much heavier one) the calls are made but the value is not judged (DESIGN section 6: the incremental weighted mean loses digits there)",
+		"tiny data (a non-zero |x| < 1e-280; < 1e-140 for Variance): absolute floor of 8 quanta (5e-324) per operand on Sum, Mean, Variance, 8 quanta on GeoMean; StdDev is only required to be a non-negative number where the exact variance is below 2^-1022; GeoMean of data holding a subnormal value, or beyond 1e307, is only required to be a non-negative number (math.Log / math.Exp of the go1.23 amd64 toolchain are wrong on subnormals / overflow above 709.4); a NaN where the exact value is finite is always a violation",
+		"+-MaxFloat64: Mean is judged while max|x|*max(1,max w) <= 1.25e308, beyond that only for one-signed data with weights in {0,1} (x-m and w*x cannot overflow); +Inf is accepted where exact value + tolerance > MaxFloat64; Bounds and Weight are always judged, bit-exactly / to rounding",
 		"overflow: Sum is judged only while sum|w x| <= 2^1000 and Variance/StdDev only while sum x^2 <= 2^960 (the exact value is finite and far from overflow); otherwise the calls are made (no panic, Sorted-flag law) but their values are not judged; Mean, GeoMean and Bounds of finite data are always judged",
 		"Map/Vectorize: every result element equals f(x[i]) bit for bit; neither the number of calls of f per element (>= 1 over the life of a closure), their order nor their goroutine is constrained; results are fresh storage per call")
 	r.Gate("geomean-nonpositive-values-only-at-zero-weight", "n=0", "n=1", "offset/spread>=1e8", "zero-weight-prefix", "zero-weight-suffix", "zero-weight-first", "all-zero-weights",
@@ -1602,7 +2181,14 @@ func c09Run(r *mon.Run) {
 		"huge-same-sign", "huge-plain-sum-overflows", "huge-weighted-sum-overflows", "huge-and-small-mixed", "huge-offset-small-spread", "huge-sum-judged", "large-variance-judged",
 		"sum-not-judged:exact-value-overflows-or-nearly", "variance-not-judged:squares-overflow-or-nearly",
 		"map-n>=128", "map-n>=128-ragged", "map-n>=1000", "map-repeat-equal-length", "map-repeat-unequal-length",
-		"logspace-num>=200", "logspace-num>=1000", "logspace-num>=1000-small-exponents")
+		"logspace-num>=200", "logspace-num>=1000", "logspace-num>=1000-small-exponents",
+		"wide-weights", "weight-ratio>=2^53", "wide-integer-weights<=1e6", "int-weights>64", "weights-scaled-by-2^+-40",
+		"a-weight-below-half-ulp-of-the-weight-before-it", "extreme-value-only-at-weights<=1e-12*max",
+		"wide-weights-mean-judged", "wide-weights-mean-judged:a-weight-below-half-ulp-of-the-weight-before-it",
+		"tiny-values", "tiny-all-subnormal", "tiny-1/max|x|-overflows", "tiny-normal-geomean-judged", "tiny-and-ordinary-mixed", "tiny-with-zeros",
+		"tiny-variance-underflows", "smallest-nonzero-present", "maxfloat-present", "maxfloat-mean-judged",
+		"all-weighted-values-are-maxfloat", "all-weighted-values-are-smallest-nonzero",
+		"hist-write-maxfloat", "hist-write-smallest-nonzero", "hist-write-weight>=1e13")
 	if err := c09SelfTest(); err != nil {
 		r.Inconclusive("reference self-test failed: " + err.Error())
 		return
@@ -1657,6 +2243,18 @@ func c09Run(r *mon.Run) {
 	})
 	r.Parallel("histories", r.Pick(5000, 40000), func(w *mon.W, i int) {
 		c09JudgeHistory(w, c09GenHistory(w.Rng, i))
+	})
+	r.Parallel("samples-wide-weights", r.Pick(1000, 10000), func(w *mon.W, i int) {
+		c09JudgeSample(w, c09GenWide(w.Rng, i))
+	})
+	r.Parallel("samples-tiny", r.Pick(800, 8000), func(w *mon.W, i int) {
+		c09JudgeSample(w, c09GenTiny(w.Rng, i))
+	})
+	r.Parallel("samples-extreme", r.Pick(500, 5000), func(w *mon.W, i int) {
+		c09JudgeSample(w, c09GenExtreme(w.Rng, i))
+	})
+	r.Parallel("histories-extreme", r.Pick(500, 5000), func(w *mon.W, i int) {
+		c09JudgeHistory(w, c09GenHistoryExtreme(w.Rng, i))
 	})
 
 	r.Parallel("vsum", r.Pick(2000, 20000), func(w *mon.W, i int) {
